@@ -154,6 +154,16 @@ def run(ctx, focus):
     if T:
         mcs += [("MC_SL_3n.cfg", cfg_text(["p1", "p2"], [1, 2], 2, 3, 1)),
                 ("MC_SL_inflight.cfg", cfg_text(["p1", "p2"], [1], 2, 2, 1, inflight=True))]
+    # liveness (growth): under weak fairness of in-call steps every call returns (no retry loop spins for ever)
+    if ctx.pid == "C13":
+        lives = [("MC_SL_live_q.cfg", cfg_text(["p1", "p2"], [1], 2, 2, 1, invs=()))]
+        if T:
+            lives.append(("MC_SL_live_2k.cfg", cfg_text(["p1", "p2"], [1, 2], 2, 2, 1, invs=())))
+        for name, text in lives:
+            text = text.replace("SPECIFICATION Spec", "SPECIFICATION LiveSpec").replace("CHECK_DEADLOCK FALSE", "PROPERTY EveryCallReturns\nCHECK_DEADLOCK FALSE")
+            r = mc(ctx, name, text, timeout=3000)
+            if r.kind is not None:
+                raise Infra("Skiplist.tla violates %s in %s (liveness): model error; the real skiplist is judged by traces" % (r.violated, name))
     cex = []
     for name, text in mcs:
         r = mc(ctx, name, text, timeout=2400)
